@@ -44,6 +44,7 @@ type Query struct {
 	Rets   []*Val // ensures queries: the values returned on this path (for replay)
 	Post   *State // state at the point of the obligation
 	Cover  bool // satisfiable expected (vacuity check): sat/unknown = ok, unsat = vacuous
+	Dep    bool // thorough tier: a clause of another property that this property's proof relies on
 	Run    *Run
 	Result *SolveResult
 }
